@@ -237,14 +237,37 @@ def relObs (ty : Ty) (a b : List Int) : Except String Obs := do
     | some x, some y => pure { eq := Either.eq ieq ieq x y, ne := Either.ne ieq ieq x y }
     | _, _ => bad
   | .var =>
-    let dec : List Int → Option (Var Int) := fun l => match l with
+    -- variant<int, long, short>: the nested sum int ⊕ (long ⊕ short)
+    let dec : List Int → Option (Sum Int (Sum Int Int)) := fun l => match l with
+      | [0, x] => some (.inl x) | [1, x] => some (.inr (.inl x)) | [2, x] => some (.inr (.inr x)) | _ => none
+    -- the one-component-type model (index, value) must say the same
+    let decV : List Int → Option (Var Int) := fun l => match l with
       | [i, x] => if 0 ≤ i ∧ i < 3 then some ⟨i.toNat, x⟩ else none | _ => none
-    match dec a, dec b with
-    | some x, some y =>
-      pure { eq := Var.eq ieq x y, ne := Var.ne ieq x y, lt := some (Var.lt ilt x y),
-             extra := s!" cmp={b01 (Var.compare ieq x y)} cmplt={b01 (Var.compare ilt x y)}" }
+    match dec a, dec b, decV a, decV b with
+    | some x, some y, some vx, some vy =>
+      let e := SumV.eq ieq (SumV.eq ieq ieq) x y
+      let n := SumV.ne ieq (SumV.eq ieq ieq) x y
+      let l := SumV.lt ilt (SumV.lt ilt ilt) x y
+      let ce := SumV.compare ieq (SumV.compare ieq ieq) x y
+      let cl := SumV.compare ilt (SumV.compare ilt ilt) x y
+      if e == Var.eq ieq vx vy && n == Var.ne ieq vx vy && l == Var.lt ilt vx vy && ce == Var.compare ieq vx vy &&
+         cl == Var.compare ilt vx vy then
+        pure { eq := e, ne := n, lt := some l, extra := s!" cmp={b01 ce} cmplt={b01 cl}" }
+      else .error "model-mismatch"
+    | _, _, _, _ => bad
+  | .tup =>
+    -- tuple<int, long, short>: the nested pair int × (long × short)
+    match a, b with
+    | [x0, x1, x2], [y0, y1, y2] =>
+      let e := Pair.eq ieq (Pair.eq ieq ieq) (x0, x1, x2) (y0, y1, y2)
+      -- the index-wise model over one component type must say the same
+      match toVec 3 a, toVec 3 b with
+      | some va, some vb =>
+        if e == equalV ieq va vb then pure { eq := e, ne := Pair.ne ieq (Pair.eq ieq ieq) (x0, x1, x2) (y0, y1, y2) }
+        else .error "model-mismatch"
+      | _, _ => bad
     | _, _ => bad
-  | .tup | .arr | .earr =>
+  | .arr | .earr =>
     match toVec 3 a, toVec 3 b with
     | some x, some y =>
       let e := equalV ieq x y
@@ -257,7 +280,11 @@ def relObs (ty : Ty) (a b : List Int) : Except String Obs := do
       let r2 : Rec Int := [(0, y0), (1, y1)]
       let r2p : Rec Int := [(1, y1), (0, y0)]     -- the same record as a type with permuted elements
       match Rec.eq ieq r1 r2, Rec.ne ieq r1 r2, Rec.eq ieq r1 r2p, Rec.eq ieq r2p r1 with
-      | some e, some n, some xe, some ex => pure { eq := e, ne := n, extra := s!" xeq={b01 xe} exq={b01 ex}" }
+      | some e, some n, some xe, some ex =>
+        -- the two-element model with element types of their own must agree with the label lookup
+        if xe == Rec2.eqPermuted ieq ieq (x0, x1) (y1, y0) && ex == Rec2.eqPermuted ieq ieq (y1, y0) (x0, x1) then
+          pure { eq := e, ne := n, extra := s!" xeq={b01 xe} exq={b01 ex}" }
+        else .error "model-mismatch"
       | _, _, _, _ => .error "ill-formed"
     | _, _ => bad
   | .sti =>
@@ -456,10 +483,33 @@ def tri1Line (ty : Ty) (a b c : List Int) : String :=
 
 /-- `reference::get`, `recursive::get`, `*unique_ptr`, `*shared_ptr`, `undecorate (decorate x)` all show the
 wrapped object; the store maps the address of the one object to its value -/
+def showMI (r : M Int) : String := match r with | .ok v => toString v | .error f => f.name
+
 def wrapLine (x : Int) : String :=
   let mem : Nat → Int := fun _ => x
   let r : Ref := ⟨0⟩
-  s!"ref={Ref.get mem r} same=1 rec={x} uniq={x} shared={x} iso={ST.undecorate (ST.decorate x)}"
+  let other : Int := IntTy.i32.bxor x 1
+  -- recursive: copy, then write the other value through the copy
+  let rec0 := RecCell.make x
+  let copyThenSet : M (RecCell Int) := do let c ← rec0.copy; c.set other
+  let reccopy := s!"{showMI (copyThenSet >>= RecCell.get)}/{showMI rec0.get}"
+  -- copy assignment over another value, the source is changed afterwards
+  let src := RecCell.make x
+  let dst := RecCell.make other
+  let dst' := RecCell.assign dst src false
+  let src' := src.set other
+  let recasg := s!"{showMI (dst' >>= RecCell.get)}/{showMI (src' >>= RecCell.get)}"
+  let dstSelf : M (RecCell Int) := do let d ← dst'; RecCell.assign d d true
+  let recself := showMI (dstSelf >>= RecCell.get)
+  let recmv : M Int := do
+    let d ← dstSelf
+    let (mv, _) := d.move
+    let (mv2, _) := mv.move
+    mv2.get
+  let sp : SPtr := ⟨1, 0⟩
+  s!"ref={Ref.get mem r} same=1 rec={showMI rec0.get} uniq={x} shared={showMI (SPtr.get mem sp)} iso={ST.undecorate (ST.decorate x)}" ++
+  s!" reccopy={reccopy} recasg={recasg} recself={recself} recmv={showMI recmv} recrv={showMI (RecCell.make x).get}" ++
+  s!" uniq2={x}/{x}/{x} sh2={x}/{x}/{x}/{x}/{x}/{x}"
 
 def handle (toks : List String) : String :=
   match toks with
